@@ -375,7 +375,7 @@ pub fn check_case(case: &Case13, legs: &[Leg], rep: &mut Report) {
 
 pub fn run(ctx: &Ctx) -> Report {
     let corpus = patgen::load_corpus();
-    let n = ctx.cases(3000, 200_000);
+    let n = ctx.cases(30_000, 1_000_000);
     crate::par_cases(ctx, 13, n, |rng, _i, rep| {
         if let Some(case) = gen_case(rng, &corpus) {
             let legs = gen_legs(rng);
